@@ -189,6 +189,37 @@ def judge_pure(case):
     return core.result("judged", digest=core.digest_of([core.fhex(J[0]), core.fhex(J[1])]), viol=v)
 
 
+def judge_mixed_curve(case):
+    """a hand-built curve whose feed points are stated in different bases (any order): every separation factor and PSI is
+    (y1/y2)/(x1/x2) with feed and permeate in ONE basis; flux containers may be lists, tuples or numpy arrays."""
+    import numpy
+    mix = U.get_mixture(case["mixture"])
+    m1, m2 = mix.first_component.molecular_weight, mix.second_component.molecular_weight
+    xs_w = case["xs"]
+    fl = [(0.031 * (1 + i), 0.0017 * (2 + i) ** 2) for i in range(len(xs_w))]
+    comps = [U.Composition(p=(xw if b_ == "weight" else U.exact_to_molar(xw, m1, m2)), type=b_) for xw, b_ in zip(xs_w, case["bases"])]
+    fluxes = fl if case["container"] == "tuples" else ([list(f) for f in fl] if case["container"] == "lists" else numpy.array(fl))
+    st, c = core.call(U.DiffusionCurve, mixture=mix, membrane_name="M", feed_temperature=333.15, feed_compositions=comps, partial_fluxes=fluxes)
+    if st != "ok":
+        return core.result("raised", nontrivial=False)
+    st1, sf = core.call(lambda: [float(z) for z in c.get_separation_factor])
+    st2, ps = core.call(lambda: [float(z) for z in c.get_psi])
+    v = []
+    for i, xw in enumerate(xs_w):
+        y = fl[i][0] / (fl[i][0] + fl[i][1])
+        want = sep_factor(y, xw)
+        if st1 == "ok" and not core.close(sf[i], want, 1e-9):
+            v.append(core.viol("C08/separation_factor/mixed_basis_curve", "point %d (stated as %s, bases %r, fluxes as %s): separation factor %r, (y1/y2)/(x1/x2) in mass fractions = %r" % (
+                i, case["bases"][i], case["bases"], case["container"], sf[i], want)))
+            break
+        tot = fl[i][0] + fl[i][1]
+        if st2 == "ok" and not core.close(ps[i], tot * (want - 1), 1e-9):
+            v.append(core.viol("C08/psi/mixed_basis_curve", "point %d (stated as %s, bases %r, fluxes as %s): PSI %r, total flux x (separation factor - 1) = %r" % (
+                i, case["bases"][i], case["bases"], case["container"], ps[i], tot * (want - 1))))
+            break
+    return core.result("judged", digest=core.digest_of(case), viol=v)
+
+
 def judge_trace(case):
     setup = traces.Setup(case)
     st, pm = setup.run()
@@ -201,7 +232,17 @@ def judge_trace(case):
     except Exception as e:  # noqa: BLE001
         return core.result("malformed", viol=[core.viol("C08/malformed_result/" + setup.kind, "%r" % (e,))])
     v = []
+    if setup.init_perm is not None and tr["n"] >= 1:
+        # the caller SUPPLIED the initial permeances (possibly in another unit per component): step 0 must be the standalone flux
+        # calculation with those very permeances (stated by the harness in kg/(m2 h kPa), converted exactly to the case's units)
+        sup = tuple(float(z) for z in case["init_perm"]["values"])
+        st0, J0 = setup.solver(tr["T"][0], tr["x"][0], sup)
+        if st0 == "ok" and not all(core.close(float(J0[i]), tr["J"][0][i], 1e-6, 1e-300) for i in (0, 1)):
+            v.append(core.viol("C08/step0_vs_supplied_permeances/" + setup.kind, "step 0 reports fluxes %r; the standalone flux calculation with the supplied initial permeances %r (units %r) gives %r" % (
+                tr["J"][0], sup, case["init_perm"].get("units", "kg/(m2*h*kPa)"), (float(J0[0]), float(J0[1])))))
     for k in range(tr["n"]):
+        if v:
+            break
         st, J = setup.solver(tr["T"][k], tr["x"][k], tr["P"][k])
         if st != "ok":
             v.append(core.viol("C08/step_vs_standalone/" + setup.kind, "step %d reports fluxes %r but the standalone flux calculation at the reported state raises %r" % (k, tr["J"][k], J)))
@@ -264,7 +305,7 @@ def trace_spaces(tier, seed):
     non = {
         "kind": ["nonideal_iso", "nonideal_noniso"], "mixture": ["H2O_EtOH", "S2"], "model": ["NRTL", "UNIQUAC"],
         "mode": ["vac", ("T", -20.0), ("p", 0.5)], "prog": ["none", "poly"],
-        "curves": [spaces.CURVE_CONFIGS["one"], spaces.CURVE_CONFIGS["two"]], "init_perm": [None, {"values": (2.5e-2, 3.0e-5)}],
+        "curves": [spaces.CURVE_CONFIGS["one"], spaces.CURVE_CONFIGS["two"]], "init_perm": [None, {"values": (2.5e-2, 3.0e-5)}, {"values": (2.5e-2, 3.0e-5), "units": ["GPU", "SI"]}],
         "area": [0.05, 1.0], "amount": [0.047, 50.0], "dt": core.lat([0.1, 2.0], seed), "steps": [4] if q else [3, 8],
         "x0": core.lat([0.1, 0.45], seed), "basis": ["weight", "molar"], "T": [333.15, 318.15],
     }
@@ -297,6 +338,10 @@ def main(tier, seed):
             "mode": ["vac", ("T", -60.0), ("p", 0.0), ("p", 0.5), ("p", 3.0)], "P": [(1e-2, 1e-4), (1e-4, 1e-2)], "x": [0.0, 1.0], "basis": ["weight", "molar"],
             "T": core.lat([313.15, 353.15], seed)}
     core.run_space(rep, core.Space("pure_feeds", pure, lambda c: U.has_model(U.get_mixture(c["mixture"]), c["model"])), judge_pure)
+    import itertools
+    mb = {"mixture": ["H2O_EtOH", "S2"], "xs": [core.lat([0.2, 0.6, 0.85], seed)], "bases": [list(b_) for b_ in itertools.product(["weight", "molar"], repeat=3)],
+          "container": ["tuples", "lists", "numpy"]}
+    core.run_space(rep, core.Space("mixed_basis_curve_metrics", mb), judge_mixed_curve)
     for sp in trace_spaces(tier, seed):
         spaces.prewarm(sp)
         core.run_space(rep, sp, judge_trace)
@@ -305,7 +350,7 @@ def main(tier, seed):
 
 def replay(body):
     U.install_fit_memo()
-    fn = judge_entry if body["space"] == "entry_points" else (judge_pure if body["space"] == "pure_feeds" else judge_trace)
+    fn = judge_entry if body["space"] == "entry_points" else (judge_pure if body["space"] == "pure_feeds" else (judge_mixed_curve if body["space"] == "mixed_basis_curve_metrics" else judge_trace))
     r = fn(body["case"])
     for v in r["viol"]:
         print("violation key=%s: %s" % (v["key"], v["msg"]))
